@@ -11,7 +11,7 @@ open Sshuttle.Wrap
 /-- Source view of a live proxy: its socket wrapper reads, its mux wrapper frames into `m`. -/
 def SV (s : SockW) (w : MuxW) (m : MuxL) (e : ESock) : SrcV :=
   { present := true, ever := true, buf := s.buf.flatten, shutR := s.shutR, mwShutW := w.shutW,
-    out := m.out, consumed := e.consumed }
+    out := m.out, consumed := e.consumed, ownShutW := s.shutW }
 
 /-- Sink view of a live proxy: its mux wrapper receives, its socket wrapper writes into `e`. -/
 def KV (s : SockW) (w : MuxW) (ok : Bool) (e : ESock) : SinkV :=
@@ -22,7 +22,9 @@ def KV (s : SockW) (w : MuxW) (ok : Bool) (e : ESock) : SinkV :=
 macro "flag_tac" : tactic =>
   `(tactic| first | (intro h; exact Or.inl h) | (simp [SV, KV, SockW.noread]; done) | (simp_all [SV, KV, SockW.noread]; done) | rfl)
 
-abbrev SrcStar (c : Nat) := Star (SrcStep c)
+/-- Every wrapper operation refines source transitions that are allowed while the sink of the
+direction is still open (`k = false`), hence in any case (`SrcStep.mono`). -/
+abbrev SrcStar (c : Nat) := Star (SrcStep c false)
 abbrev SinkStar := Star SinkStep
 
 theorem popEmpty_flatten (l : List Bytes) : (popEmpty l).flatten = l.flatten := by
@@ -37,10 +39,12 @@ theorem popEmpty_flatten (l : List Bytes) : (popEmpty l).flatten = l.flatten := 
 
 theorem srcStar_flags (c : Nat) (a a' : SrcV) (h1 : a'.present = a.present) (h2 : a'.ever = a.ever)
     (h3 : a'.buf = a.buf) (h4 : a'.out = a.out) (h5 : a'.consumed = a.consumed)
-    (hr : a.shutR = true → a'.shutR = true) (hw : a.mwShutW = true → a'.mwShutW = true) :
+    (hr : a.shutR = true → a'.shutR = true) (hw : a'.mwShutW = a.mwShutW)
+    (hos : a.ownShutW = true → a'.ownShutW = true) :
     SrcStar c a a' := by
-  have st := SrcStep.flags (c := c) a a'.shutR a'.mwShutW hr hw
-  have e : ({ a with shutR := a'.shutR, mwShutW := a'.mwShutW } : SrcV) = a' := by
+  have st := SrcStep.flags (c := c) (k := false) a a'.shutR a'.mwShutW a'.ownShutW hr (fun h => by rw [hw]; exact h) hos
+    (fun h => Or.inl (by rw [← hw]; exact h))
+  have e : ({ a with shutR := a'.shutR, mwShutW := a'.mwShutW, ownShutW := a'.ownShutW } : SrcV) = a' := by
     cases a; cases a'; simp_all
   rw [e] at st; exact Star.single st
 
@@ -59,8 +63,9 @@ theorem sinkStar_flags (b b' : SinkV) (hp : b'.present = b.present) (he : b'.eve
 /-- The two views do not depend on fields an operation may touch freely. -/
 theorem SV_congr {s s' : SockW} {w w' : MuxW} {m m' : MuxL} {e e' : ESock}
     (h1 : s'.buf.flatten = s.buf.flatten) (h2 : s'.shutR = s.shutR) (h3 : w'.shutW = w.shutW)
-    (h4 : m'.out = m.out) (h5 : e'.consumed = e.consumed) : SV s' w' m' e' = SV s w m e := by
-  simp [SV, h1, h2, h3, h4, h5]
+    (h4 : m'.out = m.out) (h5 : e'.consumed = e.consumed) (h6 : s'.shutW = s.shutW) :
+    SV s' w' m' e' = SV s w m e := by
+  simp [SV, h1, h2, h3, h4, h5, h6]
 
 theorem KV_congr {s s' : SockW} {w w' : MuxW} {ok : Bool} {e e' : ESock}
     (h1 : w'.buf.flatten = w.buf.flatten) (h2 : w'.shutR = w.shutR) (h3 : s'.shutW = s.shutW)
@@ -132,7 +137,7 @@ theorem opOk_of_flags {c : Nat} {s s' : SockW} {w w' : MuxW} {m m' : MuxL} {e e'
     (hc : e'.consumed = e.consumed) (hpd : e'.pending = e.pending) (hd : e'.delivered = e.delivered)
     (hei : e'.eofIn = e.eofIn)
     (r1 : s.shutR = true → s'.shutR = true) (r2 : s.shutW = true → s'.shutW = true)
-    (r3 : w.shutR = true → w'.shutR = true) (r4 : w.shutW = true → w'.shutW = true)
+    (r3 : w.shutR = true → w'.shutR = true) (r4 : w'.shutW = w.shutW)
     (r5 : e.sawShut = true → e'.sawShut = true)
     (h4 : s'.shutW = true → s.shutW = true ∨ e'.sawShut = true)
     (h5 : w'.shutR = true → w.shutR = true ∨ s'.shutW = true)
@@ -165,15 +170,16 @@ theorem tryConnect_ok (c : Nat) (s : SockW) (w : MuxW) (m : MuxL) (e : ESock) (o
     (cr : ConnRes) (s' : SockW) (e' : ESock) (h : s.tryConnect e cr se = .ok s' e') :
     OpOk c s w m e ok s' w m e' ok := by
   obtain ⟨f1, f2, f3, f4, f5, f6, f7, f8, f9⟩ := tryConnect_facts s e se cr s' e' h
-  exact opOk_of_flags f1 rfl rfl rfl f2 f3 f4 f5 f6 f7 id id f8 f9 (fun h => Or.inl h) (fun h => Or.inl h)
+  exact opOk_of_flags f1 rfl rfl rfl f2 f3 f4 f5 f6 f7 id rfl f8 f9 (fun h => Or.inl h) (fun h => Or.inl h)
 
 /-! ### relational forms of the data-moving transitions -/
 
 theorem srcStep_consume' (c : Nat) (a a' : SrcV) (x : Bytes) (hp : a.present = true) (hr : a.shutR = false)
     (h1 : a'.consumed = a.consumed ++ x) (h2 : a'.buf = a.buf ++ x) (h3 : a'.present = a.present)
-    (h4 : a'.ever = a.ever) (h5 : a'.shutR = a.shutR) (h6 : a'.mwShutW = a.mwShutW) (h7 : a'.out = a.out) :
-    SrcStep c a a' := by
-  have st := SrcStep.consume (c := c) a x hp hr
+    (h4 : a'.ever = a.ever) (h5 : a'.shutR = a.shutR) (h6 : a'.mwShutW = a.mwShutW) (h7 : a'.out = a.out)
+    (h9 : a'.ownShutW = a.ownShutW) :
+    SrcStep c false a a' := by
+  have st := SrcStep.consume (c := c) (k := false) a x hp hr
   have e : ({ a with consumed := a.consumed ++ x, buf := a.buf ++ x } : SrcV) = a' := by
     cases a; cases a'; simp_all
   rw [e] at st; exact st
@@ -181,8 +187,8 @@ theorem srcStep_consume' (c : Nat) (a a' : SrcV) (x : Bytes) (hp : a.present = t
 theorem srcStep_send' (c : Nat) (a a' : SrcV) (moved : Bytes) (hb : a.buf = moved ++ a'.buf) (hne : moved ≠ [])
     (hp : a.present = true) (ho : a'.out = a.out ++ [⟨c, DATA, moved⟩]) (h3 : a'.present = a.present)
     (h4 : a'.ever = a.ever) (h5 : a'.shutR = a.shutR) (h6 : a'.mwShutW = a.mwShutW)
-    (h7 : a'.consumed = a.consumed) : SrcStep c a a' := by
-  have st := SrcStep.send (c := c) a moved a'.buf hb hne hp
+    (h7 : a'.consumed = a.consumed) (h9 : a'.ownShutW = a.ownShutW) : SrcStep c false a a' := by
+  have st := SrcStep.send (c := c) (k := false) a moved a'.buf hb hne hp
   have e : ({ a with buf := a'.buf, out := a.out ++ [⟨c, DATA, moved⟩] } : SrcV) = a' := by
     cases a; cases a'; simp_all
   rw [e] at st; exact st
@@ -190,24 +196,26 @@ theorem srcStep_send' (c : Nat) (a a' : SrcV) (moved : Bytes) (hb : a.buf = move
 theorem srcStep_eof' (c : Nat) (a a' : SrcV) (hp : a.present = true) (hb : a.buf = []) (hr : a.shutR = true)
     (hw : a.mwShutW = false) (hw' : a'.mwShutW = true) (ho : a'.out = a.out ++ [⟨c, EOF, []⟩])
     (h3 : a'.present = a.present) (h4 : a'.ever = a.ever) (h5 : a'.shutR = a.shutR) (h6 : a'.buf = a.buf)
-    (h7 : a'.consumed = a.consumed) : SrcStep c a a' := by
-  have st := SrcStep.eof (c := c) a hp hb hr hw
+    (h7 : a'.consumed = a.consumed) (h9 : a'.ownShutW = a.ownShutW) : SrcStep c false a a' := by
+  have st := SrcStep.eof (c := c) (k := false) a hp hb hr hw
   have e : ({ a with mwShutW := true, out := a.out ++ [⟨c, EOF, []⟩] } : SrcV) = a' := by
     cases a; cases a'; simp_all
   rw [e] at st; exact st
 
 theorem srcStep_stop' (c : Nat) (a a' : SrcV) (hp : a.present = true) (ho : a'.out = a.out ++ [⟨c, STOP, []⟩])
     (h3 : a'.present = a.present) (h4 : a'.ever = a.ever) (h5 : a'.shutR = a.shutR) (h6 : a'.buf = a.buf)
-    (h7 : a'.consumed = a.consumed) (h8 : a'.mwShutW = a.mwShutW) : SrcStep c a a' := by
-  have st := SrcStep.stopFrame (c := c) a hp
+    (h7 : a'.consumed = a.consumed) (h8 : a'.mwShutW = a.mwShutW) (h9 : a'.ownShutW = a.ownShutW)
+    (hs : a.ownShutW = true) : SrcStep c false a a' := by
+  have st := SrcStep.stopFrame (c := c) (k := false) a hp hs
   have e : ({ a with out := a.out ++ [⟨c, STOP, []⟩] } : SrcV) = a' := by
     cases a; cases a'; simp_all
   rw [e] at st; exact st
 
 theorem srcStep_discard' (c : Nat) (a a' : SrcV) (hp : a.present = true) (hb : a'.buf = []) (hr : a'.shutR = true)
     (h3 : a'.present = a.present) (h4 : a'.ever = a.ever) (h6 : a'.mwShutW = a.mwShutW) (h7 : a'.out = a.out)
-    (h8 : a'.consumed = a.consumed) : SrcStep c a a' := by
-  have st := SrcStep.discard (c := c) a hp
+    (h8 : a'.consumed = a.consumed) (h9 : a'.ownShutW = a.ownShutW) (hw : a.mwShutW = true) :
+    SrcStep c false a a' := by
+  have st := SrcStep.discard (c := c) (k := false) a hp hw
   have e : ({ a with buf := [], shutR := true } : SrcV) = a' := by
     cases a; cases a'; simp_all
   rw [e] at st; exact st
@@ -371,7 +379,7 @@ theorem sockCopyToMux_ok (s : SockW) (w : MuxW) (m : MuxL) (e : ESock) (ok : Boo
   refine ⟨?_, ?_, h7, EnvKeeps.rfl' e⟩
   · -- source view: an optional DATA frame, then an optional EOF
     let a1 : SrcV := { present := true, ever := true, buf := s'.buf.flatten, shutR := s.shutR,
-                       mwShutW := w.shutW,
+                       mwShutW := w.shutW, ownShutW := s.shutW,
                        out := m.out ++ (if moved = [] then [] else [⟨w.chan, DATA, moved⟩]),
                        consumed := e.consumed }
     have st1 : SrcStar w.chan (SV s w m e) a1 := by
@@ -392,7 +400,7 @@ theorem sockCopyToMux_ok (s : SockW) (w : MuxW) (m : MuxL) (e : ESock) (ok : Boo
     · have he' : (s'.buf.isEmpty && s'.shutR && !w.shutW) = false := by simpa using he
       have : SV s' w' m' e = a1 := by
         rw [h3] at he'
-        simp only [a1, SV, h2, h8, h3, he', Bool.or_false, Bool.false_eq_true, ↓reduceIte, List.append_nil]
+        simp only [a1, SV, h2, h8, h3, h4, he', Bool.or_false, Bool.false_eq_true, ↓reduceIte, List.append_nil]
       rw [this]; exact Star.refl _
   · apply sinkStar_flags <;> simp_all [KV]
 
@@ -519,7 +527,7 @@ theorem mwNoread_ok (c : Nat) (s : SockW) (w : MuxW) (m : MuxL) (e : ESock) (ok 
     simp only [hr', Bool.false_eq_true, ↓reduceIte]
     refine ⟨?_, ?_, rfl, ⟨rfl, rfl⟩⟩
     · apply Star.single
-      apply srcStep_stop' c _ _ rfl <;> simp [SV, MuxL.send, hc, STOP]
+      apply srcStep_stop' c _ _ rfl <;> simp [SV, MuxL.send, hc, STOP, hs]
     · apply sinkStar_flags <;> simp_all [KV]
 
 theorem mwNowrite_ok (c : Nat) (s : SockW) (w : MuxW) (m : MuxL) (e : ESock) (ok : Bool) (hc : w.chan = c)
@@ -538,9 +546,11 @@ theorem mwNowrite_ok (c : Nat) (s : SockW) (w : MuxW) (m : MuxL) (e : ESock) (ok
 theorem dropSock_ok (p : ProxyS) (m : MuxL) (e : ESock) : POk p m e p.dropSock m e := by
   unfold ProxyS.dropSock
   split
-  · refine ⟨⟨?_, ?_, rfl, ⟨rfl, rfl⟩⟩, rfl⟩
+  next hcond =>
+    simp only [Bool.and_eq_true] at hcond
+    refine ⟨⟨?_, ?_, rfl, ⟨rfl, rfl⟩⟩, rfl⟩
     · apply Star.single
-      apply srcStep_discard' _ _ _ rfl <;> simp [SV, SockW.noread]
+      apply srcStep_discard' _ _ _ rfl <;> simp [SV, SockW.noread, hcond.2]
     · apply sinkStar_flags <;> flag_tac
   · exact POk.refl ..
 
